@@ -180,3 +180,52 @@ def show(h):
         return bytes.fromhex(h).decode("utf-8")
     except Exception:
         return "hex:" + h
+
+
+def check_laws(rows):
+    """sample the oracle laws assumed by the C05 theorems on the library answers shipped with the cases.
+    returns (counts, list of failures)"""
+    cnt = {"unquote_quote": 0, "quote_shape": 0, "quote_ws": 0, "time_roundtrip": 0, "time_alphabet": 0, "float_roundtrip": 0}
+    fails = []
+    alpha = set(b"0123456789T:.Z+-")
+    for r in rows:
+        tb = r.get("tables") or {}
+        unq = {k: v for k, v in tb.get("unq", [])}
+        ptime = {k: v for k, v in tb.get("ptime", [])}
+        pfloat = {k: v for k, v in tb.get("pfloat", [])}
+        for s, q in tb.get("quote", []):
+            bs, bq = bytes.fromhex(s), bytes.fromhex(q)
+            cnt["quote_shape"] += 1
+            if len(bq) < 2 or bq[0] != 0x22 or bq[-1] != 0x22:
+                fails.append({"law": "quote_shape", "s": s, "q": q})
+            cnt["quote_ws"] += 1
+            if any(c in bq for c in b"\t\n\x0c\r") or (b" " in bq and b" " not in bs):
+                fails.append({"law": "quote_ws", "s": s, "q": q})
+            if q in unq:
+                cnt["unquote_quote"] += 1
+                if unq[q] != s:
+                    fails.append({"law": "unquote_quote", "s": s, "q": q, "unquoted": unq[q]})
+        for t, ft in tb.get("ftime", []):
+            bft = bytes.fromhex(ft)
+            off = int(t["off"])
+            local = int(t["ns"]) // 1000000000 + off
+            in_dom = -62167219200 <= local < 253402300800 and off % 60 == 0 and -86400 < off < 86400
+            if not in_dom:
+                continue
+            cnt["time_alphabet"] += 1
+            if len(bft) == 0 or any(c not in alpha for c in bft):
+                fails.append({"law": "time_alphabet", "t": t, "text": ft})
+            if ft in ptime:
+                cnt["time_roundtrip"] += 1
+                if ptime[ft] != t:
+                    fails.append({"law": "time_roundtrip", "t": t, "text": ft, "parsed": ptime[ft]})
+        for b, ff in tb.get("ffloat", []):
+            bi = int(b)
+            nan = (bi >> 52) & 0x7FF == 0x7FF and (bi & ((1 << 52) - 1)) != 0
+            if nan:
+                continue
+            if ff in pfloat:
+                cnt["float_roundtrip"] += 1
+                if int(pfloat[ff]) != bi:
+                    fails.append({"law": "float_roundtrip", "bits": b, "text": ff, "parsed": pfloat[ff]})
+    return cnt, fails
